@@ -18,15 +18,27 @@ def seg_flat(blocks, w):
     return [[y * w + x for (y, x) in blk] for blk in blocks]
 
 
+_H3_BLOCKS = [[(0, 0), (0, 1), (0, 2), (1, 2), (1, 1), (1, 0)]]
+_REUSED = {}
+_HANDED_BLOCKS = []
+
+
 def patterns():
     from cspuz.generator import Choice, ArrayBuilder2D, SegmentationBuilder2D
     def arr(h, w, choice, sym=False, adj=False, move=False):
         return (lambda: ArrayBuilder2D(h, w, choice, default=0, symmetry=sym, disallow_adjacent=adj, use_move=move),
                 {"kind": "array", "h": h, "w": w, "choice": list(choice), "default": 0, "symmetry": sym, "adjacent": adj, "move": move},
                 flat)
-    def seg(h, w, b):
-        return (lambda: SegmentationBuilder2D(h, w, min_num_blocks=b["minB"], max_num_blocks=b["maxB"],
-                                              min_block_size=b["minS"], max_block_size=b["maxS"]),
+    def seg(h, w, b, initial_blocks=None):
+        def mk():
+            kw = {}
+            if initial_blocks is not None:        # every builder gets its caller's own list; it must stay as handed over
+                mine = copy.deepcopy(initial_blocks)
+                _HANDED_BLOCKS.append((mine, copy.deepcopy(mine)))
+                kw["initial_blocks"] = mine
+            return SegmentationBuilder2D(h, w, min_num_blocks=b["minB"], max_num_blocks=b["maxB"],
+                                         min_block_size=b["minS"], max_block_size=b["maxS"], **kw)
+        return (mk,
                 {"kind": "segmentation", "h": h, "w": w, "bnd": b}, lambda p: seg_flat(p, w))
     C = lambda ch: {"const": False, "choice": list(ch)}
     K = {"const": True, "choice": []}
@@ -43,6 +55,8 @@ def patterns():
         "G2": arr(3, 3, [0, 1, 2], sym=True, adj=True),
         "H": seg(2, 2, {"minB": 1, "maxB": 4, "minS": 1, "maxS": 4}),
         "H2": seg(2, 3, {"minB": 2, "maxB": 3, "minS": 1, "maxS": 4}),
+        # initial_blocks that do not meet the bounds yet: initial() repairs a copy of them
+        "H3": seg(2, 3, {"minB": 2, "maxB": 4, "minS": 1, "maxS": 3}, initial_blocks=_H3_BLOCKS),
     }
 
 
@@ -108,7 +122,8 @@ def run_generate(args):
         events.append({"ev": "pretest", "p": fp, "ret": o["pre"]})
         return o["pre"]
 
-    pattern = mk()
+    # opts["reuse"]: one builder object for every run of this process (a builder is configuration, not state)
+    pattern = _REUSED.setdefault(pname, mk()) if opts.get("reuse") else mk()
     rec = {"t": tid, "pattern": desc, "pname": pname, "seed": seed, "opts": opts, "status": "ok", "exc": ""}
     try:
         from cspuz.generator.builder import build_neighbor_generator
@@ -134,6 +149,9 @@ def run_generate(args):
                                   max_steps=opts.get("max_steps"), solve_initial_problem=opts.get("solve_initial", False),
                                   initial_temperature=opts.get("temp", 5.0), **kw)
         intact = all(a == b for a, b in handed)
+        # diagnostic only: C19 does not speak about the caller's initial_blocks list (the re-seeding schedule with one
+        # builder object is what decides whether such a modification changes a run)
+        rec["callers_initial_blocks_modified"] = any(a != b for a, b in _HANDED_BLOCKS)
         events.append({"ev": "return", "some": result is not None, "p": proj(result) if result is not None else [],
                        "intact": intact})
     except Exception as e:  # noqa
